@@ -631,6 +631,10 @@ func (c *Client) proposalParent(prop ChannelProposal, partIdx channel.Index) (pa
 	case *SubChannelProposalMsg:
 		parentChannelID = &prop.Parent
 	case *VirtualChannelProposalMsg:
+		if int(partIdx) >= len(prop.Parents) {
+			err = errors.Errorf("expected at least %d parent channels, got %d", partIdx+1, len(prop.Parents))
+			return
+		}
 		parentChannelID = &prop.Parents[partIdx]
 	}
 
